@@ -453,7 +453,10 @@ def element_split_table(prog, chk):
     chk.rule("C09.elsplit", "element codec: nested content is accepted only when the children tile the payload exactly (decision table over stray octets)", floor=8)
     fn = prog.fn("convertToNested", "tlv_element.c")
     ep = fn.params[0]["n"]
-    for hdr, kids, stray in [(2, [(2, 1), (2, 1)], s) for s in (0, 1, 2, 3)] + [(4, [(4, 300), (2, 0)], s) for s in (0, 1, 2)] + [(2, [], 0), (2, [], 1)]:
+    layouts = [(2, [(2, 1), (2, 1)], s) for s in (0, 1, 2, 3)] + [(4, [(4, 300), (2, 0)], s) for s in (0, 1, 2)] + [(2, [], 0), (2, [], 1)]
+    if getattr(chk, "tier", "quick") == "thorough":
+        layouts += [(2, [(2, d)] * k, s) for k in (1, 3, 5) for d in (0, 1, 7) for s in (0, 1, 2, 3, 4)] + [(4, [(4, 256), (4, 256), (2, 255)], s) for s in (0, 1, 3)]
+    for hdr, kids, stray in layouts:
         starts, o = {}, hdr
         for k, (h, d) in enumerate(kids):
             starts[o] = (k, h, d)
